@@ -13,7 +13,7 @@ MOD = __name__
 
 RULE = ("every accepted input of C01's spaces plus Hypothesis scripts whose string positions are filled by a value generator "
         "aimed at quoting (escaped quotes, backslashes, brackets, commas, newlines, non-ASCII, multi-line blocks, lists, tag "
-        "parameters, nested blocks); oracle: tosieve() does not raise, its text is accepted, re-parses to an equal tree "
+        "parameters, nested blocks) and scripts with lists of up to 30 multi-word items / strings of up to 300 words; oracle: tosieve() does not raise, its text is accepted, re-parses to an equal tree "
         "(harness walker, raw values byte-exact) and re-serialises to the same text. Non-trivial = script has a string with a "
         "hostile character, a list, a multi-line value or a tag parameter; distinct by source.")
 
@@ -105,6 +105,60 @@ def values_worker(arg):
     return col
 
 
+WORDS = ["click", "here", "to", "claim", "your", "prize", "a\tb", "x  y", " lead", "trail ", "é€", "[tag]", "a,b", '"q"', "text:", "#hash",
+         "/*c*/", "semi;colon", "\\", "-", "0123456789" * 3, "w" * 70, "", "\r\n", ".", "{", "}"]
+
+
+@st.composite
+def long_item(draw):
+    ws = draw(st.lists(st.sampled_from(WORDS), min_size=1, max_size=8))
+    return S.quote(draw(st.sampled_from([" ", " ", "\t", "  ", ", "])).join(ws))
+
+
+def long_list(draw, lo=1, hi=30):
+    items = draw(st.lists(long_item(), min_size=lo, max_size=hi))
+    out = [b"["]
+    for i, it in enumerate(items):
+        if i:
+            out.append(b",")
+        out.append(it)
+    return out + [b"]"]
+
+
+def long_worker(arg):
+    """Lists and strings far longer than a line: up to 30 items of up to 8 words
+    (blanks, tabs, doubled blanks, leading/trailing blanks inside the items)."""
+    sd, n = arg
+    col = core.Collector()
+
+    @pspace.hyp_settings(n)
+    @hseed(sd)
+    @given(st.data())
+    def body(data):
+        L = lambda lo=1, hi=30: long_list(data.draw, lo, hi)  # noqa: E731
+        Sx = lambda: [data.draw(long_item())]  # noqa: E731
+        toks = [b"require", b"[", b'"fileinto"', b",", b'"imap4flags"', b",", b'"vacation"', b",", b'"body"', b",", b'"envelope"', b"]", b";"]
+        k = data.draw(st.integers(0, 5))
+        if k == 0:
+            toks += [b"if", b"header", b":contains"] + L() + L() + [b"{", b"fileinto"] + Sx() + [b";", b"}"]
+        elif k == 1:
+            toks += [b"addflag"] + L() + [b";", b"if", b"exists"] + L() + [b"{", b"keep", b";", b"}"]
+        elif k == 2:
+            toks += [b"vacation", b":addresses"] + L() + [b":subject"] + Sx() + Sx() + [b";"]
+        elif k == 3:
+            toks += [b"if", b"anyof", b"(", b"body", b":text", b":contains"] + L() + [b",", b"envelope", b":is"] + L(1, 4) + L() + [b")", b"{", b"stop", b";", b"}"]
+        elif k == 4:
+            toks += [b"if", b"true", b"{", b"if", b"true", b"{", b"if", b"address", b":matches"] + L() + L() + [b"{", b"fileinto", b":flags"] + L() + Sx() + [b";", b"}", b"}", b"}"]
+        else:
+            toks += [b"redirect", S.quote(" ".join(data.draw(st.lists(st.sampled_from(WORDS), min_size=10, max_size=300)))), b";"]
+        text = S.canonical(toks)
+        _one(text, "long", col)
+        col.classes["long:>80-columns" if max(len(x) for x in text.split(b"\n")) > 80 else "long:short"] += 1
+
+    body()
+    return col
+
+
 def replay(case):
     status, bucket, detail, _ = roundtrip(case["text"])
     return [(bucket, detail)] if status == "fail" else []
@@ -125,7 +179,8 @@ def main(tier, seed, t0):
     quick = tier == "quick"
     col = pspace.run(MOD, tier, seed, overrides=dict(blind=2 if quick else 3))
     col.merge(core.run_shards(values_worker, [(seed * 1000 + 300 + k, 250 if quick else 4000, 3 if quick else 6) for k in range(16)]))
-    need = ["accepted", "has:list", "has:multiline", "has:tag", "has:hostile-string", "src:values", "src:guided"]
+    col.merge(core.run_shards(long_worker, [(seed * 1000 + 350 + k, 60 if quick else 1000) for k in range(16)]))
+    need = ["accepted", "has:list", "has:multiline", "has:tag", "has:hostile-string", "src:values", "src:guided", "src:long", "long:>80-columns"]
     missing = [c for c in need if not col.classes.get(c)]
     if missing:
         raise core.HarnessError("generator classes empty: %s" % missing)
